@@ -7,6 +7,7 @@ import Driver.OpsSql
 import Driver.OpsDataFormat
 import Driver.OpsCsv
 import Driver.OpsCid
+import Driver.OpsOds
 open Driver
 
 def dispatch (args : List String) : String :=
@@ -22,6 +23,7 @@ def dispatch (args : List String) : String :=
     else if op == "df" || op.startsWith "df." then opDataFormat args
     else if op.startsWith "csv." then opCsv args
     else if op.startsWith "cid." then opCid args
+    else if op == "ods" then opOds args
     else "bad-op"
 
 partial def loop (h : IO.FS.Stream) (out : IO.FS.Stream) : IO Unit := do
